@@ -34,10 +34,10 @@ def run(tier, replay=None):
     with open(genf, "w") as f:
         for b in beh:
             f.write(json.dumps(b) + "\n")
-    drive = vlib.build_harness()
+    drive = vlib.build_harness(cmd="c18")
     trace = c.work / "c18.ndjson"
     n, real = (300, 24) if tier == "quick" else (3000, 120)
-    st = vlib.run_driver(drive, ["c18", "-out", trace, "-gen", genf, "-seed", c.seed, "-n", n, "-real", real])
+    st = vlib.run_driver(drive, ["-out", trace, "-gen", genf, "-seed", c.seed, "-n", n, "-real", real])
     r, lines = c.validate_trace("ChunkParser_Trace", trace, timeout=3000)
     events = vlib.read_ndjson(trace)
     # attach the scenario header to each failure (for classification)
